@@ -148,6 +148,10 @@ Definition report_of (qfuel : nat) (choose : chooser) (o : report_opts) (tc : li
       end
   end.
 
+(* report::process on a sequence of entries: names numbered by first appearance, then booked *)
+Definition book_entries (es : list s_entry) : nres nstate * nat :=
+  let '(_, _, nes) := low_entries [] [] es in process_named nes.
+
 Definition of_status (s : tstatus) (ok : fr_result) : fr_result :=
   match s with
   | TDone => ok
